@@ -1,7 +1,7 @@
 /* C01.trim_c0_whitespace / prune_hash exact (bounded) */
 void harness(void) {
   HAVOC_BUFS;
-  sv_t view; view.n = nondet_size(); MAKE_SV(view);
+  ND_SV(view);
   sv_t t = view;
   trim_c0_whitespace(&t);
   sv_t e = ref_trim_c0(view);
